@@ -203,6 +203,9 @@ pub struct Watch {
     pub opts: Opts,
     pub m: Model,
     pub viol: Option<Violation>,
+    /// a representation finding that does not stop the run (see sync): reported for its own
+    /// property, while the run goes on so that its consequences for other properties show
+    pub deferred: Option<Violation>,
     pub stats: Stats,
     /// adversarial mode: the protocol model is off, only model-free oracles decide
     pub lenient: bool,
@@ -241,6 +244,7 @@ pub enum WCall {
     Release(u32),
     Erase(u32),
     SetPing(Option<u64>),
+    SetPingresp(u64),
     Crash(ExportMangle),
     /// from here on the protocol model is off (adversarial input follows)
     Lenient,
@@ -300,6 +304,7 @@ impl Watch {
             opts,
             m: Model::new(role, ver),
             viol: None,
+            deferred: None,
             stats: Stats::default(),
             lenient: false,
             vectored: false,
